@@ -101,13 +101,32 @@ def base_model(r, n_species=None, n_rxn=None, delays=True, rules=True):
     return m
 
 
-def add_species_rule(r, m, allow_ode=False):
-    """A repeated rule assigning a fresh species (never a reactant/product). Returns the rule or None."""
+def idle_species(m):
+    """Declared species that no reaction, delayed part or rule touches (they can become a rule target later)."""
+    used = set()
+    for x in m["reactions"]:
+        used |= set(x["reactants"]) | set(x["products"])
+        if x.get("delay"):
+            used |= set(x["delay"].get("reactants") or []) | set(x["delay"].get("products") or [])
+        for k in ("s1", "d"):
+            if k in x["pd"]:
+                used.add(x["pd"][k])
+        if x["type"] == "general":
+            used |= rm.expr_names(x["pd"]["rate"])["sp"]
+    for ru in m["rules"]:
+        used.add(ru["target"])
+        used |= set(ru["expr"]) if ru["type"] == "additive" else rm.expr_names(ru["expr"])["sp"]
+    return [s for s in m["species"] if s not in used]
+
+
+def add_species_rule(r, m, allow_ode=False, existing_target=None):
+    """A rule assigning a species that is never a reactant/product: a fresh one, or an already declared idle one (then the
+    rule is the only edit: nothing else re-arms the model's initialisation). Returns the rule or None."""
     free = [s for s in NAMES if s not in m["species"]]
-    if not free:
+    if existing_target is None and not free:
         return None
-    tgt = free[-1]
-    src = [s for s in m["species"] if s not in [ru["target"] for ru in m["rules"]]] or m["species"][:1]
+    tgt = existing_target if existing_target is not None else free[-1]
+    src = [s for s in m["species"] if s not in [ru["target"] for ru in m["rules"]] and s != tgt] or m["species"][:1]
     u = r.random()
     if allow_ode and u < 0.25:
         rule = {"type": "ode", "target": tgt, "expr": ["+", ["num", netgen.nice(r.uniform(0.1, 2.0))], ["*", ["num", 0.1], ["sp", r.choice(src)]]],
@@ -117,9 +136,10 @@ def add_species_rule(r, m, allow_ode=False):
     else:
         rule = {"type": "assignment", "target": tgt,
                 "expr": ["+", ["*", ["num", netgen.nice(r.uniform(0.5, 3.0))], ["sp", r.choice(src)]], ["num", 1.0]],
-                "freq": r.choice(["repeated", "repeated", "dt", "start", r.choice([0.25, 1.0, 2.5])])}
-    m["species"].append(tgt)
-    m["init"][tgt] = r.choice([0, 1, 5])
+                "freq": r.choice(["repeated", "repeated", "dt", "start", r.choice([0.25, 1.0, 2.5, 0.0, 0])])}
+    if existing_target is None:
+        m["species"].append(tgt)
+        m["init"][tgt] = r.choice([0, 1, 5])
     m["rules"].append(rule)
     return rule
 
@@ -232,7 +252,9 @@ def gen_history(r, n_ops, alphabet, param_rule_stratum=False, allow_ode=False):
         elif kind == "create_rule":
             if len(shadow["rules"]) >= 3:
                 continue
-            rule = add_species_rule(r, shadow, allow_ode)
+            idle = [x for x in idle_species(shadow) if x in plain_species]
+            tgt0 = r.choice(idle) if idle and r.random() < 0.7 else None
+            rule = add_species_rule(r, shadow, allow_ode, existing_target=tgt0)
             if rule is None:
                 continue
             ops.append(["create_rule", copy.deepcopy(rule), shadow["init"][rule["target"]]])
@@ -568,14 +590,21 @@ class Machine:
     def op_create_rule(self, op, i):
         rule = op[1]
         srcs = set(rule["expr"]) if rule["type"] == "additive" else rm.expr_names(rule["expr"])["sp"]
-        if rule["target"] in self.shadow["species"] or any(s not in self.shadow["species"] for s in srcs):
+        if any(s not in self.shadow["species"] for s in srcs):
             return
-        self.live._add_species(rule["target"])
-        self.live.set_species({rule["target"]: op[2]})
+        exists = rule["target"] in self.shadow["species"]
+        if exists and rule["target"] not in idle_species(self.shadow):
+            return      # (a shrunk history may have turned the target into a reactant / another rule's target)
+        if not exists:
+            self.live._add_species(rule["target"])
+            self.live.set_species({rule["target"]: op[2]})
         t = rm.rule_tuple(rule)
         self.live.create_rule(t[0], dict(t[1]), t[2])
-        self.shadow["species"].append(rule["target"])
-        self.shadow["init"][rule["target"]] = op[2]
+        if exists:
+            self.count("rule_on_existing_species")
+        else:
+            self.shadow["species"].append(rule["target"])
+            self.shadow["init"][rule["target"]] = op[2]
         self.shadow["rules"].append(copy.deepcopy(rule))
         self.edited()
 
